@@ -373,6 +373,15 @@ def from_envelope_cases(res, drv, tier, rng):
         else:
             desc["SUIT_Envelope_Tagged"]["suit-integrated-payloads"] = pl
             desc["SUIT_Envelope_Tagged"]["suit-integrated-dependencies"] = deps
+        dup_levels = (j % 4 == 2)
+        if dup_levels:
+            # one URI at two levels of the hierarchy (or in two sibling dependency envelopes): a cache holds a URI once - the run is refused, as
+            # it is for a duplicate within one level (C10-t)
+            first_dep = deps[names[0]]["SUIT_Envelope_Tagged"]
+            first_dep.setdefault("suit-integrated-payloads", {})[f"#root{j}"] = payload(7, j + 5).hex()
+            if ndeps >= 2:
+                deps[names[1]]["SUIT_Envelope_Tagged"].setdefault("suit-integrated-payloads", {})[f"#shared{j}"] = payload(6, j + 6).hex()
+                first_dep["suit-integrated-payloads"][f"#shared{j}"] = payload(8, j + 7).hex()
         created = suitio.impl_create(desc)
         if "ok" not in created:
             continue
@@ -405,6 +414,14 @@ def from_envelope_cases(res, drv, tier, rng):
         ci = {k: v for k, v in impl.items() if k != "wrote"}
         if ci != model:
             res.mismatches.append({"op": "extract.cache", "request": {"eb": eb, "deps": ndeps, "order": order}, "impl": _short(ci), "model": _short(model)})
+        if dup_levels and omit_re is None:
+            res.count("kind:from_envelope:duplicate-uri-across-levels")
+            if "ok" in impl:
+                res.spec_failures.append({"op": "cache_create from_envelope", "deps": ndeps, "order": order,
+                                          "what": "one URI occurs at two levels of the hierarchy and the cache was written all the same (two slots under one URI)"})
+            continue
+        if dup_levels:
+            continue
         if "ok" not in impl:
             res.spec_failures.append({"op": "cache_create from_envelope", "deps": ndeps, "impl": impl, "what": "from_envelope failed on a valid hierarchy"})
             continue
